@@ -215,7 +215,12 @@ func execHeadersFirst(f []string) string {
 			continue
 		case 'h':
 			hdr := blocks[id].MsgBlock().Header
-			main, err := chain.ProcessBlockHeader(&hdr, blockchain.BFNone, false)
+			// both values of skipCheckpoint and the no-PoW-check flag: no effect on valid regtest headers
+			flags := blockchain.BFNone
+			if (id+len(out))%3 == 0 {
+				flags = blockchain.BFNoPoWCheck
+			}
+			main, err := chain.ProcessBlockHeader(&hdr, flags, (id+len(out))%2 == 0)
 			switch {
 			case err != nil:
 				res = errClass(err)
@@ -271,6 +276,36 @@ func execHeadersFirst(f []string) string {
 			hdrs = append(hdrs, idOf(*hh))
 		}
 	}
+	// main-chain block lookups by height and by hash (BlockByHeight / BlockByHash / the public
+	// query methods on the real chain)
+	var byH, byHash []string
+	for h := int32(0); h <= maxH+1; h++ {
+		blk, err := chain.BlockByHeight(h)
+		hh, err2 := chain.BlockHashByHeight(h)
+		switch {
+		case err != nil && err2 != nil:
+			byH = append(byH, "-")
+		case err == nil && err2 == nil && *blk.Hash() == *hh && blk.Height() == h:
+			byH = append(byH, idOf(*hh))
+		default:
+			byH = append(byH, "inconsistent")
+		}
+	}
+	for id := range blocks {
+		h := blocks[id].Hash()
+		blk, err := chain.BlockByHash(h)
+		ht, err2 := chain.BlockHeightByHash(h)
+		mc := chain.MainChainHasBlock(h)
+		switch {
+		case err != nil && err2 != nil && !mc:
+			byHash = append(byHash, "-")
+		case err == nil && err2 == nil && mc && *blk.Hash() == *h && blk.Height() == ht:
+			byHash = append(byHash, strconv.Itoa(int(ht)))
+		default:
+			byHash = append(byHash, "inconsistent")
+		}
+	}
+	out = append(out, "byheight="+strings.Join(byH, "."), "byhash="+strings.Join(byHash, "."))
 	loc, _ := chain.LatestBlockLocatorByHeader()
 	hloc := make([]string, len(loc))
 	for i, h := range loc {
